@@ -117,8 +117,10 @@ def run_history(hist, variant, check_from=0):
     try:
         s = sut.Session()
         sut.LOG.take()
+        all_live = []
         for i, (line, exp) in enumerate(zip(lines, exps)):
             out, err = s.feed_line(line)
+            all_live += [l for l in out if outparse.classify(l)[0] == 'message']
             logs = sut.LOG.take()
             checked = i - npre >= check_from
             recs, others = message_lines(out)
@@ -137,6 +139,7 @@ def run_history(hist, variant, check_from=0):
                 kind = {'lifespan': 'lifespan.value', 'destroyed annotation': 'annotation.presence',
                         'destroyed object': 'annotation.object'}.get(what, 'label.' + what.split(' ')[0].rstrip('0123456789'))
                 V.append(Violation(kind, case, dict(step, what=what, expected=e, observed=o, shown=rec['text'])))
+        live_lines = list(all_live)
         conns = s.cm.connections()
         if not lines:
             pass
@@ -154,6 +157,14 @@ def run_history(hist, variant, check_from=0):
                                       'gen': _letters(last.obj.generation)})
                 if got != want or not last.obj.resolved():
                     V.append(Violation('label.api_target', case, {'expected': want, 'observed': got}))
+        if lines and not V:
+            # what was shown live is what a later listing shows, also after the input has ended (lifespans included)
+            s.close()
+            o, _ = s.cmd('list *')
+            listed = [l for l in o if outparse.classify(l)[0] == 'message']
+            if listed != live_lines:
+                k = next((i for i, (a, b) in enumerate(zip(listed, live_lines)) if a != b), min(len(listed), len(live_lines)))
+                V.append(Violation('lifespan.listing_differs_from_live', case, {'live': live_lines[k:k + 1], 'listed_after_close': listed[k:k + 1]}))
     except Exception:
         V.append(sut.exc_violation(case))
     return V, outcome
